@@ -32,13 +32,13 @@ SKY = {'circle': 'CircleSkyRegion', 'ellipse': 'EllipseSkyRegion', 'rectangle': 
        'eannulus': 'EllipseAnnulusSkyRegion', 'rannulus': 'RectangleAnnulusSkyRegion'}
 
 
-def build_sky(m, wcs, cx, cy):
+def build_sky(m, wcs, cx, cy, unit_variant=0):
     """Real sky region from the model's sky description (sizes in model units = quarter pixels x scale)."""
     import astropy.units as u
 
     import regions as R
     c = wcs.pixel_to_world(cx, cy)
-    q = lambda v: (v * BASE_ARCSEC / U) * u.arcsec  # noqa
+    q = lambda v: ((v * BASE_ARCSEC / U) * u.arcsec).to([u.arcsec, u.deg, u.arcmin][unit_variant % 3])  # noqa: sizes handed over in different units
     k = m['k']
     if k == 'circle':
         return R.CircleSkyRegion(c, q(m['r']))
@@ -49,7 +49,7 @@ def build_sky(m, wcs, cx, cy):
     return getattr(R, SKY[k])(c, q(m['w1']), q(m['w2']), q(m['h1']), q(m['h2']), angle=ang(m['d']))
 
 
-def check(ctx, st, idx, rnd, family, events):
+def check(ctx, st, idx, rnd, family, events, var=0):
     w, want, msky = st['w'], st['pix'], st['sky']
     frame = FRAMES[idx % 3]
     proj = PROJS[(idx // 3) % 2]
@@ -68,7 +68,9 @@ def check(ctx, st, idx, rnd, family, events):
     try:
         with warnings.catch_warnings():
             warnings.simplefilter('ignore')
-            sky = build_sky(msky, wcs, cx, cy)
+            sky = build_sky(msky, wcs, cx, cy, var)
+            if (var // 3) % 2:
+                sky.to_pixel(wcs)            # an earlier conversion (or a contains() call) must not change the region
             pix = sky.to_pixel(wcs)
     except Exception as ex:  # noqa
         ctx.violation(f'C07|raises|{kindsig(want)}|{type(ex).__name__}', f'to_pixel raised {ex!r}', case)
@@ -127,7 +129,7 @@ def run(ctx):
             if quick and idx % 12:
                 continue
             n += 1
-            check(ctx, st, idx, rnd, ['exact', 'tight', 'tight', 'loose'][n % 4], events)
+            check(ctx, st, idx, rnd, ['exact', 'tight', 'tight', 'loose'][n % 4], events, var=n)
         ctx.traces += n
         ctx.note('replayed_states', n)
     tlc.cleanup(res.workdir)
